@@ -40,7 +40,8 @@ spec -> code
   Time bound: every parser run of every set happens under a CPU-time budget of the worker
   process (ITIMER_PROF; wall time and machine load do not matter) of
   CpuBudgetMs(characters) = 1000 ms + n^2/1000 ms (AdversarialInputs.tla; the unchanged scanners
-  need about 0.02 ms per character, the bound is >= 90 x that at every generated length).  A run
+  need about 0.02 ms per character, the quadratic nested `_(`^m about 0.6 us * n^2: at most 1/8 of
+  the bound on the longest generated input, see coverage.time_bound in the evidence).  A run
   that exceeds it is repeated with the budget doubled and reported as `hang` if it exceeds that
   too.  The workers are supervised: a parse that cannot be interrupted (C code that never
   checks signals) is killed by the parent on the CPU time in /proc/<pid>/stat and reported; after
@@ -97,8 +98,9 @@ ASSUMPTIONS = [
     "growth is measured in interpreter line events: work done inside C extensions (re) is not counted there; "
     "it is counted by the CPU-time bound CpuBudgetMs (process CPU time of the forked worker, not wall time)",
     "exceeding the CPU budget counts as a hang only if it reproduces with the budget doubled",
-    "CpuBudgetMs is a generous quadratic (>= 90 x the measured linear cost): it separates exponential from "
-    "polynomial cost at 40..60 repetitions, it does not separate quadratic from cubic (the line-event growth does)",
+    "CpuBudgetMs is a generous quadratic (measured cost of the unchanged code <= 1/8 of it, see time_bound): it "
+    "separates exponential from polynomial cost at 40..60 repetitions, it does not separate quadratic from cubic "
+    "(the line-event growth does)",
 ]
 
 _E: Dict[str, Any] = {}
@@ -162,10 +164,12 @@ def _alarm(signum, frame):
 def timed(fn: Callable[[], Any], nchars: int = 0) -> Tuple[str, int]:
     """(outcome, CPU milliseconds) of fn() under the CPU budget of an input of nchars characters.
     The timer counts CPU time of this process (ITIMER_PROF), so load on the machine does not
-    shorten the budget; the regex engine checks signals, so a runaway match is interrupted too."""
+    shorten the budget; the regex engine checks signals, so a runaway match is interrupted too.
+    A run that does not fit the budget is repeated once with the timer at twice the budget:
+    `hang` if that is exceeded too, `overtime` if it finishes above the budget again."""
     from django.template import TemplateSyntaxError
     budget = budget_s(nchars)
-    out, t0 = "hang", time.process_time()
+    out, cpu = "hang", 0.0
     for attempt in (1, 2):
         t0 = time.process_time()
         try:
@@ -175,16 +179,18 @@ def timed(fn: Callable[[], Any], nchars: int = 0) -> Tuple[str, int]:
                 out = "ok"
             finally:
                 signal.setitimer(signal.ITIMER_PROF, 0)
-            break
         except TemplateSyntaxError:
             out = "tse"
-            break
         except _Timeout:
-            out = "hang"            # again with the budget doubled
+            out = "hang"
         except BaseException as ex:  # noqa: BLE001 - the class is the observation
             out = "exc:" + type(ex).__name__
+        cpu = time.process_time() - t0
+        if out != "hang" and cpu <= budget:
             break
-    return out, int((time.process_time() - t0) * 1000)
+        if attempt == 2 and out in ("ok", "tse"):
+            out = "overtime"
+    return out, int(cpu * 1000)
 
 
 def outcome(fn: Callable[[], Any], nchars: int = 0) -> str:
@@ -259,7 +265,7 @@ def _run_range(a: int, b: int, wid: int, shared, hangs, cap: int, full: bool):
             skipped += 1
             continue
         kind, syms = items[g]
-        text = "".join(syms)
+        text = "".join(pump_text(syms) if isinstance(syms, dict) else syms)     # pumped cases are expanded here
         n = len(text)
         chans, outs, cpus = [], [], []
         for ch, fn in channels(kind, text):
@@ -414,14 +420,26 @@ def supervised(items: List[Tuple[str, List[str]]], procs: int, label: str, full:
     return merged
 
 
-def run_inputs(chk: Check, kind: str, items: List[List[str]], label: str, procs: int,
+def run_inputs(chk: Check, kind: str, cases: List[Any], label: str, procs: int,
                stop_after: Optional[int] = None,
                trec: Optional[Callable[[int], Dict[str, Any]]] = None) -> List[Dict[str, Any]]:
-    """Feed every input (list of symbols) to the parsers of its kind under the CPU budget; report
-    inadmissible outcomes.  Returns trace records (for Trace_C12) of the slowest inputs."""
-    if not items:
+    """Feed every input (list of symbols, or a pumped case [pre, u, suf, k]) to the parsers of its
+    kind under the CPU budget; report inadmissible outcomes.  Returns trace records (for
+    Trace_C12) of the slowest inputs."""
+    if not cases:
         raise MachineryError(f"{label}: no inputs")
-    res = supervised([(kind, s) for s in items], procs, label)
+
+    class _Syms:          # symbols of input g (pumped cases are kept compact and expanded on demand)
+        def __getitem__(self, g):
+            return pump_text(cases[g]) if isinstance(cases[g], dict) else cases[g]
+
+        def __len__(self):
+            return len(cases)
+
+        def __iter__(self):
+            return (self[g] for g in range(len(cases)))
+    items = _Syms()
+    res = supervised([(kind, c) for c in cases], procs, label)
     nbad = 0
     reports = [(g, ch, out, f"cpu_ms={ms}") for g, ch, out, ms in res["bad"]]
     reports += [(g, "?", "hang", f"worker {how}: the parse could not be interrupted") for g, how in res["killed"]]
@@ -1029,23 +1047,21 @@ def core(chk: Check, tier: str, procs: int, maxlen: int, n_bases: int, grow_n: i
     chk.add("states", sum(r.distinct for r in rs) + st02)
     chk.add("transitions", sum(r.generated for r in rs) + st02)
 
-    def distinct_texts(cs: List[Dict[str, Any]]) -> Tuple[List[Dict[str, Any]], List[List[str]]]:
-        seen, keep, texts = set(), [], []      # different (pre, u, suf) can spell the same text
+    def distinct_texts(cs: List[Dict[str, Any]]) -> List[Dict[str, Any]]:
+        import hashlib
+        seen, keep = set(), []                 # different (pre, u, suf) can spell the same text
         for c in cs:
-            t = pump_text(c)
-            key = "".join(t)
+            key = hashlib.blake2b("".join(pump_text(c)).encode(), digest_size=12).digest()
             if key not in seen:
                 seen.add(key)
                 keep.append(c)
-                texts.append(t)
-        return keep, texts
+        return keep
 
-    ptag_c, ptag_t = distinct_texts(ptag)
-    ptpl_c, ptpl_t = distinct_texts(ptpl)
+    ptag_c, ptpl_c = distinct_texts(ptag), distinct_texts(ptpl)
     chk.cov["input_sets"] = {"tag_strings": len(tag_strings), "tpl_strings": len(tpl_strings),
                              "mutation_bases": cache["nbases"], "mutants": len(mutants), "valid_texts_cases": len(cases),
-                             "pumped_tag_cases": len(ptag), "pumped_tag_texts": len(ptag_t),
-                             "pumped_tpl_cases": len(ptpl), "pumped_tpl_texts": len(ptpl_t),
+                             "pumped_tag_cases": len(ptag), "pumped_tag_texts": len(ptag_c),
+                             "pumped_tpl_cases": len(ptpl), "pumped_tpl_texts": len(ptpl_c),
                              "pump": {"max_total": pump[0], "max_unit": pump[1], "max_suf": pump[2], "k": pump[3]},
                              "library_tag_sources": len(lib), "library_tag_max_words": lib_words}
     slow = run_inputs(chk, "tag", tag_strings, f"tag<= {maxlen}", procs, stop_after, lambda g: {"kind": "tag"})
@@ -1054,12 +1070,13 @@ def core(chk: Check, tier: str, procs: int, maxlen: int, n_bases: int, grow_n: i
     chk.sample({"tag_string": "".join(tag_strings[len(tag_strings) // 2]), "tpl_string": "".join(tpl_strings[len(tpl_strings) // 3]),
                 "mutant": "".join(mutants[len(mutants) // 2])})
     t0 = _phase(chk, "inputs", t0)
-    slow += run_inputs(chk, "tag", ptag_t, "pumped-tag", procs, stop_after, lambda g: dict(ptag_c[g], kind="pump"))
-    slow += run_inputs(chk, "tpl", ptpl_t, "pumped-tpl", procs, stop_after, lambda g: dict(ptpl_c[g], kind="pump"))
+    slow += run_inputs(chk, "tag", ptag_c, "pumped-tag", procs, stop_after, lambda g: dict(ptag_c[g], kind="pump"))
+    slow += run_inputs(chk, "tpl", ptpl_c, "pumped-tpl", procs, stop_after, lambda g: dict(ptpl_c[g], kind="pump"))
     t0 = _phase(chk, "pumped", t0)
     slow += run_inputs(chk, "tpl", [c["src"] for c in lib], "library-tags", procs, stop_after,
                        lambda g: {"kind": "lib", **{k: lib[g][k] for k in ("tag", "words", "form", "wrap")}})
-    chk.sample({"pumped": "".join(ptag_t[len(ptag_t) // 2])[:60] + "...", "pumped_tpl": "".join(ptpl_t[len(ptpl_t) // 2])[:60] + "...",
+    chk.sample({"pumped": "".join(pump_text(ptag_c[len(ptag_c) // 2]))[:60] + "...",
+                "pumped_tpl": "".join(pump_text(ptpl_c[len(ptpl_c) // 2]))[:60] + "...",
                 "library_tag": "".join(lib[len(lib) // 2]["src"])})
     t0 = _phase(chk, "library_tags", t0)
     roundtrip_all(chk, header, cases, procs, rt_k)
